@@ -152,12 +152,17 @@ Proof.
   cbn. apply filter_paths.
 Qed.
 
-Theorem wsvg_svg2paths ds attrs sa size :
-  length attrs = length ds -> noempty ds ->
-  svg2paths_read (wsvg_file ds attrs sa size) = Some (ds, written ds attrs).
+(* pinned el['d'] needs every d-string non-empty (svgwrite leaves an empty d out);
+   the repaired el.get('d', '') reads every list back *)
+Theorem wsvg_svg2paths c ds attrs sa size :
+  length attrs = length ds -> (f_nod_empty c = true \/ noempty ds) ->
+  svg2paths_read c (wsvg_file ds attrs sa size) = Some (ds, written ds attrs).
 Proof.
   intros H Hn. unfold svg2paths_read. rewrite wsvg_elements, attrs_paths.
-  cbn zeta. rewrite written_d by assumption. rewrite all_some_map_Some. reflexivity.
+  cbn zeta. destruct (f_nod_empty c) eqn:Ec.
+  - rewrite written_dget by exact H. reflexivity.
+  - destruct Hn as [Hn|Hn]; [discriminate|].
+    rewrite written_d by assumption. rewrite all_some_map_Some. reflexivity.
 Qed.
 
 Theorem wsvg_svg2paths_svg_attributes ds attrs sa size k v :
